@@ -79,6 +79,19 @@ pub trait Response {
     async fn write_response(&self, f: &mut impl Write) -> Result<(), Error>;
 }
 
+/// Writes a string as string response data: enclosed in double quotes, with
+/// every double quote inside the string doubled (IEEE 488.2, 8.7.8).
+async fn write_string(f: &mut impl Write, string: &str) -> Result<(), Error> {
+    f.write_char('"').await?;
+    for (i, part) in string.split('"').enumerate() {
+        if i > 0 {
+            f.write_str("\"\"").await?;
+        }
+        f.write_str(part).await?;
+    }
+    f.write_char('"').await
+}
+
 impl Response for bool {
     async fn write_response(&self, f: &mut impl Write) -> Result<(), Error> {
         match self {
@@ -121,7 +134,7 @@ impl Response for Arbitrary<'_> {
 
 impl Response for &str {
     async fn write_response(&self, f: &mut impl Write) -> Result<(), Error> {
-        write!(f, "\"{self}\"").await
+        write_string(f, self).await
     }
 }
 
@@ -225,7 +238,7 @@ impl Response for f64 {
 
 impl<const N: usize> Response for heapless::String<N> {
     async fn write_response(&self, f: &mut impl Write) -> Result<(), Error> {
-        write!(f, "\"{}\"", self.as_str()).await
+        write_string(f, self.as_str()).await
     }
 }
 
@@ -244,7 +257,7 @@ impl<const N: usize, T: Response> Response for heapless::Vec<T, N> {
 #[cfg(feature = "std")]
 impl Response for std::string::String {
     async fn write_response(&self, f: &mut impl Write) -> Result<(), Error> {
-        write!(f, "\"{}\"", self.as_str()).await
+        write_string(f, self.as_str()).await
     }
 }
 
